@@ -187,31 +187,45 @@ func c39Run(px *pxProxy, c *c39Case, res *verifkit.Result) c39Obs {
 		obs.Outcome = "harness"
 		return obs
 	}
-	// script the backends
+	// script the backends: which sub-table statement produces how many rows
 	var sql string
-	used := []int{0}
+	subs := []int{-1}          // sub-table index of every per-shard result of the case (-1: the unsharded table)
+	stmts := map[int]int{0: 1} // statements every backend must see
 	switch c.Mode {
 	case "unsharded":
 		sql = "select v from t_plain"
 	case "shard1":
 		sql = "select v from tbl_ks where id = 0"
+		subs = []int{0}
 	case "shard2":
+		sql = "select v from tbl_ks where id in (0, 2)"
+		subs = []int{0, 2}
+		stmts = map[int]int{0: 1, 1: 1}
+	case "shard4":
 		sql = "select v from tbl_ks"
-		used = []int{0, 1}
+		subs = []int{0, 1, 2, 3}
+		stmts = map[int]int{0: 2, 1: 2}
 	default:
 		res.Dev("C39 harness bad-mode", "%s", c.Mode)
 		obs.Outcome = "harness"
 		return obs
 	}
-	if len(c.N) != len(used) {
+	if len(c.N) != len(subs) {
 		res.Dev("C39 harness bad-case", "mode %s with %d backends", c.Mode, len(c.N))
 		obs.Outcome = "harness"
 		return obs
 	}
-	for i, b := range px.backends {
-		sc := fbScript{Rows: 0, RowLen: c.RowLen}
-		if i < len(c.N) {
-			sc.Rows = c.N[i]
+	produced := map[int]int{} // row tag (sub-table index, 0 for the unsharded table) -> rows produced
+	for _, b := range px.backends {
+		sc := fbScript{Rows: 0, RowLen: c.RowLen, Sub: map[int]int{}}
+		for i, sub := range subs {
+			if sub < 0 {
+				sc.Rows = c.N[i]
+				produced[0] = c.N[i]
+			} else {
+				sc.Sub[sub] = c.N[i]
+				produced[sub] = c.N[i]
+			}
 		}
 		b.setScript(sc)
 	}
@@ -224,7 +238,7 @@ func c39Run(px *pxProxy, c *c39Case, res *verifkit.Result) c39Obs {
 	defer cl.close()
 
 	// rows seen per backend, by row index
-	seen := make([]map[int]int, 2)
+	seen := make([]map[int]int, 4)
 	for i := range seen {
 		seen[i] = map[int]int{}
 	}
@@ -258,7 +272,7 @@ func c39Run(px *pxProxy, c *c39Case, res *verifkit.Result) c39Obs {
 		}
 		if dl >= 12 {
 			var be, idx int
-			if _, e := fmt.Sscanf(string(data[:11]), "B%dR%07d|", &be, &idx); e != nil || be < 0 || be > 1 {
+			if _, e := fmt.Sscanf(string(data[:11]), "B%dR%07d|", &be, &idx); e != nil || be < 0 || be > 3 {
 				if bad == "" {
 					bad = fmt.Sprintf("row header unreadable: %q", data[:11])
 				}
@@ -290,10 +304,7 @@ func c39Run(px *pxProxy, c *c39Case, res *verifkit.Result) c39Obs {
 	obs.Intact = bad == ""
 	if dl >= 12 {
 		for be, m := range seen {
-			wantN := 0
-			if be < len(c.N) {
-				wantN = c.N[be]
-			}
+			wantN := produced[be]
 			for idx, k := range m {
 				if k != 1 || idx >= wantN {
 					obs.Intact = false
@@ -324,13 +335,8 @@ func c39Run(px *pxProxy, c *c39Case, res *verifkit.Result) c39Obs {
 	// harness soundness: the statement reached exactly the backends the case is about
 	for i, b := range px.backends {
 		_, qs := b.stats()
-		want := 0
-		for _, u := range used {
-			if u == i {
-				want = 1
-			}
-		}
-		if len(qs) != want {
+		want := stmts[i]
+		if len(qs) != want && !(obs.Outcome == "error" && len(qs) < want) { // a failed statement ends its slice's work
 			res.Dev("C39 harness routing", "backend %d saw %d statements %q, the case (%s) needs %d", i, len(qs), qs, c.Mode, want)
 		}
 	}
@@ -353,10 +359,7 @@ func c39Run(px *pxProxy, c *c39Case, res *verifkit.Result) c39Obs {
 			res.Dev(fmt.Sprintf("C39 delivered rows differ from produced rows: %s %s %s", c39ModeClass(c), c.Proto, cross), "%s; %s", what, bad)
 		} else if dl >= 12 {
 			for be, m := range seen {
-				wantN := 0
-				if be < len(c.N) {
-					wantN = c.N[be]
-				}
+				wantN := produced[be]
 				for idx, k := range m {
 					if k != 1 || idx >= wantN {
 						res.Dev(fmt.Sprintf("C39 delivered rows differ from produced rows: %s %s %s", c39ModeClass(c), c.Proto, cross),
